@@ -269,6 +269,18 @@ def gen_chan_case(rng):
         if rng.random() < 0.3:
             sc.append("closed %d" % rng.randrange(nc))
         scripts[t] = sc
+    if rng.random() < 0.25:
+        # the guard is dropped while accepted messages are still queued (no poll_wake in between), then poll_wake:
+        # nothing may be forwarded after the close
+        main += ["spawn"] * ns
+        main.append(rng.choice(["join", "waitidle", "join"]))
+        for c in range(nc):
+            if rng.random() < 0.8:
+                main.append("cdrop %d" % c)
+        main += [rng.choice(["poll", "pollif"]), "join", "pollif"]
+        scripts[0] = main
+        est = 8 * sum(len(v) for v in scripts.values())
+        return Case(scripts, gen_sched(rng, ns, est), rng.randint(1, 2 ** 31), "chan-lateclose")
     body = [rng.choice(["poll", "pollif"]) for _ in range(rng.randint(0, 3))]
     for c in range(nc):
         if rng.random() < 0.6:
